@@ -4,7 +4,7 @@
    of coq/C04/Spec.v.  Proofs are in coq/C04/Proofs*.v; nothing here but statements.
    Every theorem is for ALL configurations (any number and kind of processors), all start options and
    ALL sequences of operations (incl. operations after End and further Ends). *)
-From V Require Import C04.Glue C04.ProofsMap C04.ProofsStep C04.ProofsMeets C04.ProofsHeap C04.ProofsProps C04.ProofsWire C04.ProofsPar C04.ProofsRace C04.ProofsLts C04.ProofsLtsOrder C04.ProofsLtsRace C04.ProofsLtsCut.
+From V Require Import C04.Glue C04.ProofsMap C04.ProofsStep C04.ProofsMeets C04.ProofsHeap C04.ProofsProps C04.ProofsWire C04.ProofsPar C04.ProofsRace C04.ProofsLts C04.ProofsLtsOrder C04.ProofsLtsRace C04.ProofsLtsCut C04.ProofsLtsHist.
 Local Open Scope Z_scope.
 
 (* --- sentence 1: what each configured processor's exporter receives.  The whole final state of a case:
@@ -269,3 +269,24 @@ Theorem accepted_trace_passes_cut_partial : forall (c : cfg aval) (s : start ava
   race_cut_exists (hist_of evs) s (number_threads 0 ths) (export (map_cfg conv c) (map_start conv s) (l_lin s')) = true.
 Proof. exact ProofsLtsCut.accepted_trace_passes_cut_partial. Qed.
 Print Assumptions accepted_trace_passes_cut_partial.
+
+(* what [history_ok] checks on every SRACE run is that hypothesis *)
+Theorem history_ok_complete : forall (ths : list (list (op aval))) h,
+  thread_hist_ok ths 0 h = true -> forallb (fun e => Nat.ltb (h_tid e) (List.length ths)) h = true ->
+  complete_history ths h.
+Proof. exact ProofsLtsHist.history_ok_complete. Qed.
+Print Assumptions history_ok_complete.
+
+(* --- ACCEPTED TRACE MEETS SPEC (race), as ./check composes it: an SRACE run whose logged trace the extracted acceptor accepts
+   (with mu_ free at the end and a well-formed call history) passes clauses (a), (b), (c) and the StartSpan / provider clauses of
+   SpecRace; what remains of [race_check] is clause (d).  PARTIAL: scripts without AddEvent (events clause), clause (d) open *)
+Theorem accepted_srace_run_meets_spec_partial : forall rc evs s',
+  c_sampled (rc_cfg rc) = true ->
+  history_ok rc (hist_of evs) = true ->
+  replay (race_lts_threads rc) (linit (map_cfg conv (rc_cfg rc)) (map_start conv (rc_start rc))) (fun _ => O) evs 0 = inl s' ->
+  l_mu s' = None ->
+  (forall x, valid (race_threads rc) x -> match opa (race_threads rc) x with Event _ _ _ => False | _ => True end) ->
+  race_check (rc_cfg rc) (rc_start rc) (race_threads rc) (hist_of evs) (l_got s') =
+  check (isrec_ok (hist_of evs) (number_threads 0 (race_threads rc))) isrec_tag.
+Proof. exact ProofsLtsHist.accepted_srace_run_meets_spec_partial. Qed.
+Print Assumptions accepted_srace_run_meets_spec_partial.
